@@ -19,6 +19,7 @@ function* ownGroups() {
   const mk = (pre, thunkSrc, feature, setup = () => {}) => {
     const b = new ModuleBuilder();
     b.importDefault('probe:C0', 'C0');
+    b.importNamed('vue', 'KeepAlive');
     const g = b.global({ k: 'str', v: 'G' }), gs = b.global({ k: 'slots', v: { default: { k: 'slotfn', id: 'own.default' } } }), f = b.fnGlobal({ k: 'vnode', id: 'fv' });
     setup(b);
     for (const p of pre) b.pre.push(p);
@@ -27,7 +28,9 @@ function* ownGroups() {
     for (const o of [{}, { enableObjectSlots: false }, { mergeProps: false }]) { variants.push({ vid: `p${variants.length / 2}#0`, options: { ...o, optimize: false } }); variants.push({ vid: `p${(variants.length - 1) / 2}#1`, options: { ...o, optimize: true } }); }
     return { gid: `C12-own-${k++}`, src: b.source(), syntax: 'jsx', spec: { thunks: [{ name: 't0' }], env: b.env }, feature: `own|${feature}`, variants, pairs: ['p0', 'p1', 'p2'] };
   };
-  const PAREN = ['<C0>{(G)}</C0>', '<C0>{(GS)}</C0>', '<C0>{(F())}</C0>', '<C0>{(() => [F()])}</C0>', '<C0>{(function () { return [G]; })}</C0>', '<C0>{({ default: () => [G] })}</C0>', '<div>{({ a: 1 })}</div>', '<div>{(G)}</div>', '<>{(F())}</>', '<C0>{((G))}</C0>', '<C0 v-slots={(GS)}>{(G)}</C0>', '<div>{(null)}</div>', '<C0>{(G)}{(F())}</C0>'];
+  const PAREN = ['<C0>{(G)}</C0>', '<C0>{(GS)}</C0>', '<C0>{(F())}</C0>', '<C0>{(() => [F()])}</C0>', '<C0>{(function () { return [G]; })}</C0>', '<C0>{({ default: () => [G] })}</C0>', '<div>{({ a: 1 })}</div>', '<div>{(G)}</div>', '<>{(F())}</>', '<C0>{((G))}</C0>', '<C0 v-slots={(GS)}>{(G)}</C0>', '<div>{(null)}</div>', '<C0>{(G)}{(F())}</C0>',
+    // a lone function child of a host that does not take slots
+    '<KeepAlive>{() => [F()]}</KeepAlive>', '<div>{() => [G]}</div>', '<>{() => [G]}</>', '<x-el v-slots={GS}>{(item) => [item]}</x-el>', '<div>{function () { return [G]; }}</div>', '<KeepAlive v-slots={GS}>{() => [G]}</KeepAlive>'];
   for (const j of PAREN) for (const ctx of ['arrow', 'fn']) yield mk([], ctx === 'arrow' ? `export const t0 = () => ${j};` : `export function t0() {\n  return ${j};\n}`, `paren|${j}|${ctx}`);
   // an assignment whose JSX holds several components: which of them sees the remembered target must not depend on optimize
   const ASSIGN = ['<div><A0>{y}</A0><B0>{x}</B0></div>', '<Outer><A0>{F()}</A0><B0>{x}</B0></Outer>', '<A0><B0>{y}</B0><B1>{x}</B1><B2>{x}</B2></A0>', '<div><A0>{x}</A0><B0>{x}</B0></div>', '<><A0>{F()}</A0>{x}<B0>{x}</B0></>'];
@@ -45,7 +48,7 @@ export function* generate({ tier, seed }) {
   for (const [name, mod] of Object.entries(SOURCES)) {
     for (const g of mod.generate({ tier, seed })) {
       // short child sequences of C02 are kept in full (single children are where optimize takes shortcuts)
-      const shortC02 = name === 'C02' && g.spec.thunks[0].feature && String(g.spec.thunks[0].feature).startsWith('child|') && String(g.spec.thunks[0].feature).split('|')[2].split(',').length <= 2;
+      const shortC02 = name === 'C02' && g.spec.thunks[0].feature && String(g.spec.thunks[0].feature).startsWith('child|') && (() => { const ks = String(g.spec.thunks[0].feature).split('|')[2].split(','); return ks.length <= 2 || (ks.length === 3 && ['comment', 'empty'].includes(ks[1])); })();
       if (!shortC02 && rng() > keep[name]) continue;
       if (name === 'C06') {
         if (g.spec.thunk !== 't0') continue;
